@@ -300,9 +300,16 @@ class World:
         return out
 
     def sync_report(self, c, token_text):
+        # every third REPORT asks for a bounded answer (RFC 6578 3.7 D:limit) and names the sync level: the server ignores the
+        # limit and answers in full, which is what the model (and a client that merely applies the delta) expects -- an
+        # implementation that truncates must also hand out a token from which the rest is delivered
+        self._nsync = getattr(self, "_nsync", 0) + 1
+        extra = ""
+        if self._nsync % 3 == 0:
+            extra = "<D:sync-level>1</D:sync-level><D:limit><D:nresults>%d</D:nresults></D:limit>" % (1 + (self._nsync // 3) % 2)
         body = ('<?xml version="1.0"?><D:sync-collection xmlns:D="DAV:"><D:prop><D:getetag/></D:prop>'
                 + ("<D:sync-token>%s</D:sync-token>" % token_text if token_text is not None else "")
-                + "</D:sync-collection>")
+                + extra + "</D:sync-collection>")
         st, hd, b = self.req("REPORT", self.cpath(c), data=body)
         if st >= 500:
             return ("failed", st)
